@@ -134,6 +134,10 @@ class RateLimiter:
                 ip
                 for ip, bucket in self.buckets.items()
                 if now - bucket.last_update > 600  # 10 minutes idle
+                # ... and already refilled to capacity: evicting a partly drained
+                # bucket would hand the address a fresh, full allowance
+                and bucket.tokens + (now - bucket.last_update) * bucket.refill_rate
+                >= bucket.capacity
             ]
 
             for ip in to_remove:
